@@ -29,7 +29,20 @@ for d in sorted(os.listdir(os.path.join(V, "seeded"))):
     json.dump(res, open(os.path.join(p, "result.json"), "w"), indent=1)
     rows.append((d, str(meta.get("summary", ""))[:110].replace("|", "/").replace("\n", " "), status))
     print(d, status, flush=True)
+# RESULTS.md is rebuilt from every stored result.json (so partial re-runs keep the other rows)
+allrows = []
+for d in sorted(os.listdir(os.path.join(V, "seeded"))):
+    p = os.path.join(V, "seeded", d)
+    if not os.path.exists(os.path.join(p, "result.json")):
+        continue
+    res = json.load(open(os.path.join(p, "result.json")))
+    meta = {}
+    try:
+        meta = json.load(open(os.path.join(p, "meta.json")))
+    except Exception:
+        pass
+    allrows.append((d, str(meta.get("summary", ""))[:110].replace("|", "/").replace("\n", " "), res["status"] + " @" + res.get("repo_head", "?")))
 with open(os.path.join(V, "seeded", "RESULTS.md"), "w") as f:
     f.write("# Seeded changes vs. checks (quick tier, tools/try_seed.sh on a copy of /repo)\n\n| seed | change | result |\n|---|---|---|\n")
-    for r in rows:
+    for r in allrows:
         f.write(f"| {r[0]} | {r[1]} | {r[2]} |\n")
